@@ -194,6 +194,14 @@ def prove(ctx, prop_mods, audit_file, expected_theorems):
         else:
             ctx.discharged += 1
     ctx.log("audit: %d/%d theorems discharged" % (ctx.discharged, ctx.obligations))
+    if ok and ctx.tier == "thorough":
+        # independent re-check of the compiled theorem modules (DESIGN §2.1 step 2)
+        for m in [t for t in prop_mods if ".Props." in t]:
+            rc, out, dt = sh(["lake", "env", "leanchecker", m], cwd=LEAN, timeout=1800)
+            ctx.log("leanchecker %s -> rc=%d (%.0fs)" % (m, rc, dt))
+            if rc != 0:
+                ctx.broken.append({"kind": "leanchecker", "module": m, "output": out[-2000:]})
+                ok = False
     return ok
 
 
